@@ -845,15 +845,20 @@ pub fn c10_double_ended<P: Payload>(st: &State<P>, rng: &mut Rng, stats: &mut C1
                                 v.push(x);
                                 v
                             });
+                            // `.rev()` written directly on the partly consumed iterator (whatever method that resolves to)
+                            let rv: Vec<NodeId> = it.clone().rev().take(4 * a.count() + 8).collect();
                             let cnt = it.count();
-                            (fw, bw, cnt)
+                            (fw, bw, cnt, rv)
                         }};
                     }
-                    let (fw, bw, cnt) = match kind {
+                    let (fw, bw, cnt, rv) = match kind {
                         DeKind::Children => check!(id.children(a)),
                         DeKind::Preceding => check!(id.preceding_siblings(a)),
                         DeKind::Following => check!(id.following_siblings(a)),
                     };
+                    if rv != rmid {
+                        bail!(format!("{:?}-rev-after-pulls", kind), "{:?} of node {} after {} front and {} back pulls: `.rev()` on the iterator yields {:?}; the remaining elements, reversed, are {:?}", kind, usize::from(id), nf, nb, us(&rv), us(&rmid));
+                    }
                     if fw != mid || bw != rmid || cnt != mid.len() {
                         bail!(format!("{:?}-internal-iteration", kind), "{:?} of node {} after {} front and {} back pulls: fold visits {:?}, rfold visits {:?}, count() = {}; the remaining elements are {:?}", kind, usize::from(id), nf, nb, us(&fw), us(&bw), cnt, us(&mid));
                     }
